@@ -6,7 +6,9 @@ Tie: random operation histories are executed in lock-step on real `Vector` objec
       matches `shape`, every populated cell is a 2-D array with one column per field, field names unique
       and as many units, field/whole flatten = row-major concatenation and writing it back is the
       identity, a new vector shares no array / dict / list with the vectors that existed before
-      (views share exactly the addressed arrays), slices and fancy get/set address the right cells;
+      (views share exactly the addressed arrays), slices and fancy get/set address the right cells,
+      and (reference semantics, `oracle_effect`) the cell contents after field arithmetic, set_flattened,
+      add_fields, remove_fields and copy are the expected ones while no other array changes;
   (2) the whole observable state (shape, fields, units, per-cell arrays as exact rationals, `is`-aliasing of
       cells and metadata dicts between all live vectors, the returned value or error class) is compared
       with the Coq model run on the same history (vm_compute).
@@ -1054,7 +1056,7 @@ def run(ctx: Ctx):
     hists = []
     for ops in directed_histories():
         hists.append(("directed", run_history(ops, len(ops))))
-    n_rand = ctx.budget(260, 6000)
+    n_rand = ctx.budget(260, 4000)
     depth = ctx.budget(15, 40)
     for k in range(n_rand):
         dims = [None, None, 1, 2, 3][k % 5]
